@@ -28,6 +28,10 @@ def minDataLen (dims : List (Nat × Nat)) : Nat :=
   if dims.any (fun d => d.1 == 0) then 0
   else (dims.map (fun d => (d.1 - 1) * d.2)).sum + 1
 
+/-- `Layout::is_broadcast`: non-empty and some stride is zero (whatever the size of that dim). -/
+def isBroadcast (dims : List (Nat × Nat)) : Bool :=
+  total dims != 0 && dims.any (fun d => d.2 == 0)
+
 /-- The specification: storage offsets of all elements in row-major (logical) order. -/
 def rowMajor (dims : List (Nat × Nat)) : List Nat :=
   (indices dims).map (offset dims)
@@ -291,6 +295,12 @@ inductive Hist where
   | split (k : Nat) (l r : Hist)
   deriving Repr
 
+/-- Histories without `split_at` (for iterators that are not `SplitIterator`s). -/
+def Hist.noSplit : Hist → Bool
+  | .drop | .fold | .rev => true
+  | .next h | .back h | .len h | .nth _ h => h.noSplit
+  | .split _ _ _ => false
+
 inductive Obs (ι : Type) where
   | item (o : Option ι)
   | len (n : Nat)
@@ -403,6 +413,60 @@ def lanesNew (dims : List (Nat × Nat)) (dim : Nat) : Offsets :=
 def lanesOps (dims : List (Nat × Nat)) (dim : Nat) : IterOps Offsets Item :=
   mapOps (laneItem (dims.getD dim (0, 0)).1 (dims.getD dim (0, 0)).2)
 
+/-- `Lanes::new` / `LanesMut::new` with their panics: `view.size(dim)` panics for an invalid
+`dim`; `LanesMut::new` asserts `!view.is_broadcast()`. `none` = panic. -/
+def lanesNew? (dims : List (Nat × Nat)) (dim : Nat) (mutable : Bool) : Option Offsets :=
+  if dim < dims.length ∧ ¬ (mutable = true ∧ isBroadcast dims = true) then some (lanesNew dims dim)
+  else none
+
+/-! ## `Lane` / `LaneMut`: the element iterator over one lane -/
+
+/-- `Lane { view, index, end }`; the 1-D view is `(start, size, stride)`. -/
+structure LaneIt where
+  start : Nat
+  size : Nat
+  stride : Nat
+  index : Nat
+  stop : Nat
+  deriving Repr, DecidableEq
+
+namespace LaneIt
+
+/-- `lane_for_offset_range` / `LaneMut::from_storage_layout`: `index = 0`, `end = size`. -/
+def new (size stride start : Nat) : LaneIt :=
+  { start := start, size := size, stride := stride, index := 0, stop := size }
+
+def next (s : LaneIt) : Option Nat × LaneIt :=
+  if s.index < s.stop then (some (s.start + s.index * s.stride), { s with index := s.index + 1 })
+  else (none, s)
+
+def nextBack (s : LaneIt) : Option Nat × LaneIt :=
+  if s.index < s.stop then
+    (some (s.start + (s.stop - 1) * s.stride), { s with stop := s.stop - 1 })
+  else (none, s)
+
+def len (s : LaneIt) : Nat := s.stop - s.index
+
+/-- `LaneMut::nth`: `index = index.saturating_add(n).min(end); next()` (ideal arithmetic: the
+saturation at `usize::MAX` is above every `end`). -/
+def nthMut (s : LaneIt) (n : Nat) : Option Nat × LaneIt :=
+  next { s with index := min (s.index + n) s.stop }
+
+/-- `Lane` (no `nth` override, not a `SplitIterator`). -/
+def ops : IterOps LaneIt Nat where
+  next := next
+  nextBack := nextBack
+  nth := defaultNth next
+  len := len
+  fold s := drainFront next (len s) s
+  rev s := drainBack nextBack (len s) s
+  splitAt _ _ := none
+
+/-- `LaneMut` (overrides `nth`). -/
+def opsMut : IterOps LaneIt Nat := { ops with nth := nthMut }
+
+end LaneIt
+
 /-! ## Inner views -/
 
 /-- The inner view whose storage starts at `start`. -/
@@ -416,6 +480,10 @@ def innerNew (dims : List (Nat × Nat)) (n : Nat) : Offsets :=
   let inner := dims.drop (dims.length - n)
   let outer' := if minDataLen inner = 0 then outer.map (fun d => (d.1, 0)) else outer
   Offsets.new outer'
+
+/-- `InnerIterBase::new_impl` with its `assert!(parent_layout.ndim() >= inner_dims)`. -/
+def innerNew? (dims : List (Nat × Nat)) (n : Nat) : Option Offsets :=
+  if n ≤ dims.length then some (innerNew dims n) else none
 
 def innerOps (dims : List (Nat × Nat)) (n : Nat) : IterOps Offsets Item :=
   mapOps (innerItem (dims.drop (dims.length - n)))
@@ -465,6 +533,12 @@ namespace AxisIter
 
 def new (v : View) (axis : Nat) : AxisIter := { view := v, axis := axis, index := 0, stop := v.size axis }
 
+/-- `AxisIter::new` / `AxisIterMut::new` with their asserts (`axis < ndim`; mutable:
+`!is_broadcast()`). `none` = panic. -/
+def new? (v : View) (axis : Nat) (mutable : Bool) : Option AxisIter :=
+  if axis < v.dims.length ∧ ¬ (mutable = true ∧ isBroadcast v.dims = true) then some (new v axis)
+  else none
+
 def next (s : AxisIter) : Option Item × AxisIter :=
   if s.index ≥ s.stop then (none, s)
   else (some (s.view.indexAxis s.axis s.index).item, { s with index := s.index + 1 })
@@ -511,6 +585,13 @@ def nonEmpty (axis : Nat) (v : View) : Option View := if v.size axis > 0 then so
 /-- `AxisChunks::new` (caller guarantees `chunk > 0`, `axis < ndim`). -/
 def new (v : View) (axis chunk : Nat) : AxisChunks :=
   { remainder := nonEmpty axis v, axis := axis, chunk := chunk }
+
+/-- `AxisChunks::new` / `AxisChunksMut::new` with their panics (`chunk_size > 0`, valid axis in
+`view.size(axis)`; mutable: `!is_broadcast()`). `none` = panic. -/
+def new? (v : View) (axis chunk : Nat) (mutable : Bool) : Option AxisChunks :=
+  if axis < v.dims.length ∧ 0 < chunk ∧ ¬ (mutable = true ∧ isBroadcast v.dims = true) then
+    some (new v axis chunk)
+  else none
 
 def next (s : AxisChunks) : Option Item × AxisChunks :=
   match s.remainder with
